@@ -962,12 +962,18 @@ def gen_c06(rng, tier):
                 (rm, [], False),
                 (rm, ['name="x"', "skip"], False),
                 (rm, ['c="skip"', 'name="x"'], "x" in targets),
+                (rm, ['name="x"', "skip=''"], False),
+                (rm, ['skip="until v2"', 'name="x"'], False),
+                (rm, ['name="x"', "skip = 'x'"], False),
+                (rm, ['name="x"', "skip=1"], False),
                 (rm, ['name="y"', 'name="x"'], "y" in targets),
                 (tl, [e], True),
                 (tl, [e, "skip"], False),
                 (tl, ["skip", e], False),
                 (tl, [e, 'c="x"', "skip"], False),
                 (tl, [e, 'c="skip"'], True),
+                (tl, ["skip='true'", e], False),
+                (tl, [e, 'skip=""'], False),
                 (tl, [e, "c='a skip b'"], True),
                 (tl, [e, "skipx"], True),
                 ("other", [e, 'name="x"'], False),
@@ -1318,6 +1324,10 @@ def occurrences(s, p):
     return n
 
 
+C18_TAGNAMES = G.TAGNAMES + [("time-limited", "limited"), ("marker", "removal-marker"), ("x-期限", "期限"), ("tl", "tl2"),
+                             ("ab", "a"), ("a", "a-b"), ("t", "tt")]
+
+
 def render_abs(s_abs, ds, de, tl, rm):
     return s_abs.replace("\x01", ds).replace("\x02", de).replace("\x03", tl).replace("\x04", rm)
 
@@ -1335,7 +1345,7 @@ def gen_c18(rng, tier):
         dg = G.DocGen(rng, "\x01", "\x02", cfg0, safe_text=False, unit=rng.choice(["  ", "\t"]))
         s_abs = dg.document(G.ALL_KINDS, 0.3)
         ds, de = rng.choice(G.DELIMS)
-        tl, rm = rng.choice(G.TAGNAMES)
+        tl, rm = rng.choice(C18_TAGNAMES)
         s = render_abs(s_abs, ds, de, tl, rm)
         n1, n2 = s_abs.count("\x01"), s_abs.count("\x02")
         # delimiter strings occur only as parts of tags, tag names only as tag names
@@ -1344,13 +1354,31 @@ def gen_c18(rng, tier):
                 continue
         elif occurrences(s, ds) != n1 or occurrences(s, de) != n2:
             continue
-        if any(x in s_abs for x in (tl, rm)) or tl in rm or rm in tl:
+        if any(x in s_abs for x in (tl, rm)):
             continue
         cases.append(G.dcase(f"a{i}", "\x01", "\x02", s_abs, cfg0))
         cases.append(G.dcase(f"b{i}", ds, de, s, G.Cfg(tl, rm, "+00:00", G.NOW, ("x",))))
         meta[f"a{i}"] = {"stream": "meta", "pair": f"b{i}"}
         meta[f"b{i}"] = {"stream": "meta", "pair": f"a{i}", "second": True, "spelling": [ds, de, tl, rm]}
         i += 1
+    # tag sequences with crossing, stray and never-closed tags of both names (the pairing depends on
+    # the names only through equality: also for names one of which is a prefix / suffix of the other)
+    e, f = G.EXPIRED, G.FUTURE
+    atoms = ["\x01\x03 " + e + "\x02", "\x01\x03 " + f + "\x02", '\x01\x04 name="x"\x02', '\x01\x04 name="y"\x02',
+             "\x01/\x03\x02", "\x01/\x04\x02", "code();", "\n", "\n", " "]
+    for j in range(300 if tier == "quick" else 4000):
+        k = rng.randint(3, 12)
+        s_abs = "head\n" + "".join(rng.choice(atoms) + rng.choice(["", "\n", "\n  "]) for _ in range(k)) + "\ntail\n"
+        ds, de = rng.choice([d for d in G.DELIMS if d[0] != d[1]][:8])
+        tl, rm = rng.choice(C18_TAGNAMES)
+        s = render_abs(s_abs, ds, de, tl, rm)
+        if occurrences(s, ds) != s_abs.count("\x01") or occurrences(s, de) != s_abs.count("\x02"):
+            continue
+        cfg0 = G.Cfg("\x03", "\x04", "+00:00", G.NOW, ("x",))
+        cases.append(G.dcase(f"sa{j}", "\x01", "\x02", s_abs, cfg0))
+        cases.append(G.dcase(f"sb{j}", ds, de, s, G.Cfg(tl, rm, "+00:00", G.NOW, ("x",))))
+        meta[f"sa{j}"] = {"stream": "meta", "pair": f"sb{j}"}
+        meta[f"sb{j}"] = {"stream": "meta", "pair": f"sa{j}", "second": True, "spelling": [ds, de, tl, rm]}
     # known finding KF2: an end delimiter that begins with a blank, standing first on a line inside an
     # unwrapped body, loses that blank to the block dedent
     s_abs = ('a\n\x01\x03 ' + G.EXPIRED + ' unwrap-block\x02\nif {\n    x\n    \x01\x03 to="2100-01-01 00:00:00"\n\x02\n    y\n'
